@@ -27,11 +27,14 @@ CONSTANTS Own, Targets, RouterNIC,        \* our MAC, client MACs, the MAC of NI
           LLAs, GUAs, V4s, NoIP,          \* target address classes: link-local unicast; every OTHER kind of IPv6 address (global,
                                           \*   unique local, unspecified ::, loopback, multicast, IPv4-mapped); IPv4; invalid (address-less)
           RouterIPs,                      \* link-local addresses of routers
+          ZLLA, ZBase,                    \* a link-local address carrying a zone (an API argument; member of LLAs) and the same
+                                          \*   address as it appears on the wire (zones do not travel)
           NilMAC,
           SafeWake                        \* TRUE: the RA branch does not close an already closed channel (the repaired mechanism)
 
 TargetIPs == LLAs \cup GUAs \cup V4s \cup {NoIP}
-Effective(ip) == ip \in LLAs \cup {NoIP}          \* the targets StartHunt / StopHunt act on
+Effective(ip) == ip \in LLAs \cup {NoIP}          \* the targets StartHunt / StopHunt act on (ALL of fe80::/10, with or without zone)
+Wire(ip) == IF ip = NoIP THEN AllNodes ELSE IF ip = ZLLA THEN ZBase ELSE ip      \* destination address of the forged NA
 
 VARIABLES hunt,      \* sequence of [mac, ip]                  Handler6.huntList
           loops,     \* sequence of [mac, dst, pc, list, woken] spoofLoop goroutines, index = loop id
@@ -75,7 +78,7 @@ StartHuntM(m, ip) ==
      THEN /\ UNCHANGED <<hunt, loops>>
           /\ ev' = [kind |-> "start", mac |-> m, ip |-> ip, err |-> FALSE, spawned |-> 0]
      ELSE /\ hunt' = Append(hunt, [mac |-> m, ip |-> ip])
-          /\ loops' = Append(loops, [mac |-> m, dst |-> IF ip = NoIP THEN AllNodes ELSE ip,
+          /\ loops' = Append(loops, [mac |-> m, dst |-> Wire(ip),
                                      pc |-> "check", list |-> {}, woken |-> FALSE])
           /\ ev' = [kind |-> "start", mac |-> m, ip |-> ip, err |-> FALSE, spawned |-> 1]
 
@@ -89,7 +92,7 @@ ConcStartM(m, ip, n) ==
      THEN /\ UNCHANGED <<hunt, loops>>
           /\ ev' = [kind |-> "cstart", mac |-> m, ip |-> ip, n |-> n, errs |-> 0, spawned |-> 0]
      ELSE /\ hunt' = Append(hunt, [mac |-> m, ip |-> ip])
-          /\ loops' = Append(loops, [mac |-> m, dst |-> IF ip = NoIP THEN AllNodes ELSE ip,
+          /\ loops' = Append(loops, [mac |-> m, dst |-> Wire(ip),
                                      pc |-> "check", list |-> {}, woken |-> FALSE])
           /\ ev' = [kind |-> "cstart", mac |-> m, ip |-> ip, n |-> n, errs |-> 0, spawned |-> 1]
 
